@@ -221,6 +221,32 @@ func errsExec(ctx *Ctx, w []string) {
 		case "markers":
 			err, _, _ := buildErr(w[1])
 			return fmt.Sprintf("num %d", strings.Count(gerrors.GRPCWrap(err).Error(), gerrors.VerifMarker()))
+		case "embed2":
+			// a SECOND EmbedObject on an error that already carries one (possibly wrapped again / sent through GRPCWrap
+			// in between): the call may refuse (it panics today) — but an error it DOES return must have an
+			// extractable object, directly and after GRPCWrap
+			err, _, _ := buildErr(w[1])
+			if w[2] == "grpc" {
+				err = gerrors.GRPCWrap(err)
+			}
+			var second error
+			refused := false
+			func() {
+				defer func() {
+					if recover() != nil {
+						refused = true
+					}
+				}()
+				second = gerrors.EmbedObject(json.RawMessage(`{"second":2}`), err)
+			}()
+			if refused {
+				return "refused"
+			}
+			var o json.RawMessage
+			ok1 := gerrors.ExtractObject(second, &o)
+			ok2 := gerrors.ExtractObject(gerrors.GRPCWrap(second), &o)
+			mon("C19-extract-after-wrap", ok1 && ok2, fmt.Sprintf("EmbedObject accepted an error that already carries an object (%s, via %s) and returned one from which NO object can be extracted (direct=%v after GRPCWrap=%v)", w[1], w[2], ok1, ok2))
+			return "refused" // (the model's EmbedObject has the precondition 'no marker yet': anything else is judged by the monitor above)
 		case "from":
 			c := codeByName(w[1])
 			e := gerrors.FromGRPCError(status.Error(c, "some message"))
@@ -365,6 +391,20 @@ func runErrs(ctx *Ctx) {
 				do("extraw %s", recipe)
 				do("code %s", recipe)
 				do("is %s %s", recipe, cls)
+			}
+		}
+	}
+	// a second EmbedObject on an error that already carries an object
+	ctx.R.Case("double-embed")
+	for i, cls := range names {
+		for depth := 0; depth <= 2; depth++ {
+			recipe := "C." + cls + ";E." + hs(jsons[i%len(jsons)])
+			for d := 0; d < depth; d++ {
+				recipe += ";W." + hs(texts[(i+d)%4]) + ".-"
+			}
+			for _, via := range []string{"plain", "grpc"} {
+				ctx.R.Nontrivial("embedded object")
+				do("embed2 %s %s", recipe, via)
 			}
 		}
 	}
